@@ -77,6 +77,7 @@ func VerifC17Retry() {
 	verifSettle()
 	names := []string{"a.x", "b.y", "a.x"}
 	n := 1 + verifChoice("n", 3)
+	verifHTTPMaxFailures(verifParamInt("maxfail", 2))
 	var want []string
 	for i := 0; i < n; i++ {
 		ts := "15000000" + string(rune('0'+i))
